@@ -27,7 +27,7 @@ fn reject<X: Sx>(
     ctx.distinct(&case);
     let d = ctx.call("from_bytes", &case, None, || Sig::<X>::from_bytes(sig));
     let Some(s) = d.value else { return };
-    let v = ctx.call("verify", &case, None, || s.verify(pk, Some(msgs), hdr));
+    let v = ctx.call("verify", &case, Some(msgs.len() as u64 + 64), || s.verify(pk, Some(msgs), hdr));
     if v.outcome.is_ok() {
         ctx.violation(
             &format!("C02:accepted/{}", kind),
